@@ -13,3 +13,6 @@ CHECKS["C17"] = c17_check.run
 
 import c10_check
 CHECKS["C10"] = c10_check.run
+
+import c06_check
+CHECKS["C06"] = c06_check.run
